@@ -172,7 +172,7 @@ def suspend(eng, st, dur, node):
         else:
             new = eng.havoc_key(new, key, ty)
     for g in sorted(eng.spec.ghosts):
-        if g in stable_ghosts:
+        if g in stable_ghosts or g in eng.spec.local_ghosts:
             continue
         new = new.copy()
         eng.ghost_get(new, g)
@@ -248,6 +248,8 @@ def await_parallel(eng, st, p, node):
         cond = eng.spb(r, s2, +1)
         goal = z3.ForAll([j], z3.Implies(z3.And(0 <= j, j < n), cond))
         eng.add_vc('pre[%d]:%s(parallel)' % (i, c.qual.split(':')[-1]), 'pre', st, goal, node, note=r)
+    eng.check_call_requires(st, c, env_j, node,
+                            wrap=lambda cond: z3.ForAll([j], z3.Implies(z3.And(0 <= j, j < n), cond)))
     # effects: havoc the union of the modifies (object-restricted entries become whole-field)
     mods = eng.mods_of_contract_conservative(c)
     post = eng.apply_havoc(pre, mods)
